@@ -40,6 +40,11 @@ func (rc *arrayCodec) Read(r *ReadBuf, p unsafe.Pointer) error {
 			// write past its end.
 			return fmt.Errorf("array block count %d out of range", count)
 		}
+		if size := int64(rc.itemType.Size()); size > 0 && count > maxArrayBytes/size-int64(sh.Len) {
+			// More items than any allocation can hold: the runtime would panic
+			// ("allocation size out of range") when the slice is grown.
+			return fmt.Errorf("array block count %d out of range", count)
+		}
 
 		// If our array is nil or undersized then we can fix it up here.
 		*sh = rc.resizeSlice(*sh, int(count))
@@ -94,6 +99,10 @@ var sliceType = reflect.TypeOf(sliceHeader{})
 func (rc *arrayCodec) New(r *ReadBuf) unsafe.Pointer {
 	return r.Alloc(sliceType)
 }
+
+// maxArrayBytes bounds the size of a decoded array's backing store; it is
+// below the limit at which the Go runtime refuses (panics on) an allocation.
+const maxArrayBytes = 1 << 46
 
 // resizeSlice increases the length of the slice by len entries
 func (rc *arrayCodec) resizeSlice(in sliceHeader, len int) sliceHeader {
